@@ -84,6 +84,19 @@ package writecache
 //@   assigns pending
 //@   requires [batch_is_the_window_of_marked_addresses] samearray(a0, sortedAddrs) && sliceoff(a0, sortedAddrs) + len(a0) == i + ite(handledAddr, 1, 0)
 //@   defines pending(0) == old(pending(0)) - len(a0)
+// A worker keeps reading (and finally unmarks) the batch it received while the scheduler goes
+// on: the memory of a batch must belong to the tick that built it - an address array carried
+// over from an earlier tick may still be in a worker's hands, and writing the next tick's
+// addresses into it would make that worker unmark the wrong ones.
+//@ callrule scheduler_batch_memory_is_of_this_tick in (*cache).flushScheduler
+//@   property C17
+//@   callee chansend(cache.flushCh)
+//@   requires [batch_array_allocated_in_this_tick] bornin(a0, 1)
+//@ func (*cache).flushScheduler
+//@   property C17
+//@   loop 3 invariant [address_array_allocated_in_this_tick] bornin(sortedAddrs, 1)
+//@   loop 4 invariant bornin(sortedAddrs, 1)
+//@   loop 5 invariant bornin(sortedAddrs, 1)
 //@ func (*cache).flushScheduler
 //@   property C17
 //@   mode bv
